@@ -311,54 +311,32 @@ impl FormatSpec {
             .collect::<String>()
     }
 
-    fn add_magnitude_separators_for_char(
-        magnitude_str: String,
-        inter: i32,
-        sep: char,
-        disp_digit_cnt: i32,
-    ) -> String {
-        // Don't add separators to the floating decimal point of numbers
-        let mut parts = magnitude_str.splitn(2, '.');
-        let magnitude_int_str = parts.next().unwrap().to_string();
-        let dec_digit_cnt = magnitude_str.len() as i32 - magnitude_int_str.len() as i32;
-        let int_digit_cnt = disp_digit_cnt - dec_digit_cnt;
-        let mut result = FormatSpec::separate_integer(magnitude_int_str, inter, sep, int_digit_cnt);
-        if let Some(part) = parts.next() {
-            result.push_str(&format!(".{part}"))
+    /// Groups `digits` from the right in runs of `inter` separated by `sep`, zero-padding on the
+    /// left until the result is at least `min_width` characters wide (the algorithm of CPython's
+    /// `_PyUnicode_InsertThousandsGrouping`).
+    fn group_digits(digits: &str, inter: usize, sep: char, min_width: usize) -> String {
+        let mut groups: Vec<String> = Vec::new();
+        let mut remaining = digits.len();
+        let mut min_width = min_width as i64;
+        loop {
+            let len = cmp::min(
+                inter,
+                cmp::max(cmp::max(remaining as i64, min_width), 1) as usize,
+            );
+            let n_chars = cmp::min(remaining, len);
+            let n_zeros = len - n_chars;
+            let mut group = "0".repeat(n_zeros);
+            group.push_str(&digits[remaining - n_chars..remaining]);
+            groups.push(group);
+            remaining -= n_chars;
+            min_width -= len as i64;
+            if remaining == 0 && min_width <= 0 {
+                break;
+            }
+            min_width -= 1; // the separator
         }
-        result
-    }
-
-    fn separate_integer(
-        magnitude_str: String,
-        inter: i32,
-        sep: char,
-        disp_digit_cnt: i32,
-    ) -> String {
-        let magnitude_len = magnitude_str.len() as i32;
-        let offset = (disp_digit_cnt % (inter + 1) == 0) as i32;
-        let disp_digit_cnt = disp_digit_cnt + offset;
-        let pad_cnt = disp_digit_cnt - magnitude_len;
-        let sep_cnt = disp_digit_cnt / (inter + 1);
-        let diff = pad_cnt - sep_cnt;
-        if pad_cnt > 0 && diff > 0 {
-            // separate with 0 padding
-            let padding = "0".repeat(diff as usize);
-            let padded_num = format!("{padding}{magnitude_str}");
-            FormatSpec::insert_separator(padded_num, inter, sep, sep_cnt)
-        } else {
-            // separate without padding
-            let sep_cnt = (magnitude_len - 1) / inter;
-            FormatSpec::insert_separator(magnitude_str, inter, sep, sep_cnt)
-        }
-    }
-
-    fn insert_separator(mut magnitude_str: String, inter: i32, sep: char, sep_cnt: i32) -> String {
-        let magnitude_len = magnitude_str.len() as i32;
-        for i in 1..sep_cnt + 1 {
-            magnitude_str.insert((magnitude_len - inter * i) as usize, sep);
-        }
-        magnitude_str
+        groups.reverse();
+        groups.join(&sep.to_string())
     }
 
     fn validate_format(&self, default_format_type: FormatType) -> Result<(), FormatSpecError> {
@@ -390,32 +368,40 @@ impl FormatSpec {
     fn get_separator_interval(&self) -> usize {
         match self.format_type {
             Some(FormatType::Binary | FormatType::Octal | FormatType::Hex(_)) => 4,
-            Some(FormatType::Decimal | FormatType::Number(_) | FormatType::FixedPoint(_)) => 3,
-            None => 3,
-            _ => panic!("Separators only valid for numbers!"),
+            _ => 3,
         }
     }
 
     fn add_magnitude_separators(&self, magnitude_str: String, prefix: &str) -> String {
-        match &self.grouping_option {
-            Some(fg) => {
-                let sep = match fg {
-                    FormatGrouping::Comma => ',',
-                    FormatGrouping::Underscore => '_',
-                };
-                let inter = self.get_separator_interval().try_into().unwrap();
-                let magnitude_len = magnitude_str.len();
-                let width = self.width.unwrap_or(magnitude_len) as i32 - prefix.len() as i32;
-                let disp_digit_cnt = cmp::max(width, magnitude_len as i32);
-                FormatSpec::add_magnitude_separators_for_char(
-                    magnitude_str,
-                    inter,
-                    sep,
-                    disp_digit_cnt,
-                )
-            }
-            None => magnitude_str,
+        let Some(fg) = &self.grouping_option else {
+            return magnitude_str;
+        };
+        let sep = match fg {
+            FormatGrouping::Comma => ',',
+            FormatGrouping::Underscore => '_',
+        };
+        // Only the leading run of digits is grouped: a decimal point, fraction, exponent or
+        // percent sign is left alone, and so is "inf" / "nan", which has no digits at all.
+        let is_hex = matches!(self.format_type, Some(FormatType::Hex(_)));
+        let n_digits = magnitude_str
+            .bytes()
+            .take_while(|b| b.is_ascii_digit() || (is_hex && b.is_ascii_hexdigit()))
+            .count();
+        if n_digits == 0 {
+            return magnitude_str;
         }
+        let (digits, remainder) = magnitude_str.split_at(n_digits);
+        // Zero padding takes part in the grouping only for '0' fill with '=' alignment.
+        let min_width = match (self.fill, self.align, self.width) {
+            (Some('0'), Some(FormatAlign::AfterSign), Some(width)) => {
+                width.saturating_sub(prefix.len() + remainder.len())
+            }
+            _ => 0,
+        };
+        let inter = self.get_separator_interval();
+        let mut result = FormatSpec::group_digits(digits, inter, sep, min_width);
+        result.push_str(remainder);
+        result
     }
 
     pub fn format_bool(&self, input: bool) -> Result<String, FormatSpecError> {
